@@ -1,6 +1,7 @@
 (* C13 - Absolute sizes are relativized exactly or refused; fit-to-screen stays safe.
    Only statements closed by `exact`, each followed by Print Assumptions; Examples show non-vacuity. *)
 From Coq Require Import List ZArith QArith Qabs Bool.
+From PV Require Import proofs.Pos13VttFacts.
 From PV Require Import lib.Sx lib.Str lib.Result model.Geometry model.Positioning spec.SpecGeom spec.SpecPos.
 From PV Require Import proofs.GeomPrint proofs.GeomFacts proofs.PosFacts proofs.Pos12Facts.
 Import ListNotations.
@@ -115,11 +116,28 @@ Theorem C13_sami_writes_percentages : forall c s s', w_rel c = true -> sami_tran
 Proof. exact sami_writes_percentages. Qed.
 Print Assumptions C13_sami_writes_percentages.
 
-(* WebVTT: whatever the configuration, COMPUTED cue settings carry percentages only.  Raw settings read from a WebVTT file
-   (Layout.webvtt_positioning, VRaw) are passed through verbatim - C12's clause - and count as `true` here by definition *)
+(* WebVTT, one layout: whatever the configuration, COMPUTED cue settings carry percentages only (vtt_out_pct says nothing
+   about raw settings, VRaw: see C13_vtt_writer_cues for what is true of them) *)
 Theorem C13_vtt_only_percent : forall c lo out, vtt_convert_positioning c lo = Ok out -> vtt_out_pct out = true.
 Proof. exact vtt_only_percent. Qed.
 Print Assumptions C13_vtt_only_percent.
+
+(* WebVTT at WRITER level (WebVTTWriter.write = vtt_language: every caption of the written language, every layout group of a
+   caption, effective layout `group or caption or language`): each cue of the document either carries exactly the raw cue
+   settings of its effective layout (verbatim: C12's clause; nothing is claimed about their units), or no settings, or
+   computed settings whose position / line / size are all percentages.  Any configuration (relativize / fit on or off). *)
+Theorem C13_vtt_writer_cues : forall c lg outs, vtt_language c lg = Ok outs ->
+  Forall2 (fun cp cues => Forall2 cue_ok (vtt_cue_layouts (nl_layout lg) cp) cues) (nl_caps lg) outs.
+Proof. exact vtt_language_cues. Qed.
+Print Assumptions C13_vtt_writer_cues.
+
+(* ... and with relativization on the writer refuses exactly when the effective layout of some cue (truthy, without raw
+   settings) has a length that needs an absent video dimension *)
+Theorem C13_vtt_writer_refused_iff : forall c lg, w_rel c = true ->
+  ((exists e, vtt_language c lg = Err e)
+   <-> existsb (vtt_needs c) (flat_map (vtt_cue_layouts (nl_layout lg)) (nl_caps lg)) = true).
+Proof. exact vtt_language_refused_iff. Qed.
+Print Assumptions C13_vtt_writer_refused_iff.
 
 (* ---- the traversal of each writer, level by level (these two restate the model's definition as Forall2: definitional,
         used by the fit theorem below), and refusal as an equivalence ------------------------------------------------- *)
@@ -225,3 +243,15 @@ Example C13_ex_vtt_fit :
     (Some (mkLayout (Some (mkPoint (s (35 # 1)) (s (25 # 1)))) (Some (mkStretch (s (80 # 1)) (s (60 # 1)))) None None None))
   = Ok (VSet (mkVs (Some HStart) (Some (s (35 # 1))) (Some (s (25 # 1))) (Some (s (55 # 1))))).
 Proof. vm_compute. reflexivity. Qed.
+
+(* writer level: a caption with a raw-settings layout and a text node positioned in px; video 640x360 -> verbatim + percentages;
+   without a video size the second cue makes the writer refuse *)
+Example C13_ex_vtt_writer :
+  let raw := mkLayout None None None None (Some (lit "line:10px")) in
+  let px := mkLayout (Some (mkPoint (mkSize (64 # 1) PX) (mkSize (36 # 1) PX))) None None None None in
+  let lg := mkNlang None [mkNcap (Some raw) [mkNode 1 None]; mkNcap None [mkNode 1 (Some px)]] in
+  vtt_language (mkCfg true false (Some (640 # 1)) (Some (360 # 1))) lg
+    = Ok [[VRaw (lit "line:10px")]; [VSet (mkVs (Some HStart) (Some (mkSize (10 # 1) PCT)) (Some (mkSize (10 # 1) PCT)) None)]]
+  /\ vtt_language (mkCfg true false None None) lg = Err ERelativization
+  /\ existsb (vtt_needs (mkCfg true false None None)) (flat_map (vtt_cue_layouts (nl_layout lg)) (nl_caps lg)) = true.
+Proof. vm_compute. repeat split. Qed.
